@@ -453,7 +453,42 @@ fn c13_case(seed: u64, trace: bool) -> CaseOut {
     }
     // initial_mtu above the path MTU with discovery (and thus black-hole detection tuning) is a
     // legitimate black-hole scenario as long as min_mtu fits
+    if r.chance(30) {
+        // a burst of large DATAGRAMs queued behind a black hole that is there from the start
+        // (what is queued and no longer fits must be discarded, or everything behind it is stuck)
+        for t in h.cli_t.iter_mut().chain([&mut h.srv_t]) {
+            t.initial_mtu = *r.pick(&[1400, 1452]);
+            t.min_mtu = 1200;
+            t.mtud = Some((*r.pick(&[1452, 1472]), 600, 60, 20));
+        }
+        h.max_udp_payload = [1472, 1472];
+        h.net.mtu = *r.pick(&[1200, 1250, 1350]);
+        h.net.mtu_schedule.clear();
+        for a in h.cli_app.iter_mut().chain([&mut h.srv_app]) {
+            a.dgram_count = *r.pick(&[40, 200]);
+            a.dgram_min = *r.pick(&[8, 1000]);
+            a.dgram_max = 1500;
+            a.dgram_drop_pct = *r.pick(&[0, 100]);
+        }
+    }
     let mut ran = run_honest(&h, trace, 40_000, 1_800_000_000_000);
+    // nothing stays queued for good: once the world has calmed down the outgoing DATAGRAM queues of
+    // the surviving connections are empty
+    if !any_lost(&ran.w) && matches!(ran.end, RunEnd::Done) {
+        let until = ran.w.now + 120_000_000_000;
+        let _ = ran.w.run(20_000, until, |_| false);
+        if !any_lost(&ran.w) {
+            for (ei, e) in ran.w.eps.iter().enumerate() {
+                for (ch, c) in &e.conns {
+                    ran.w.mon.cnt.inc("c13.dgram_queue_checks");
+                    let q = c.c.verif_probe().dgram_outgoing;
+                    if q.0 > 0 && !c.c.is_closed() {
+                        ran.w.mon.viol.push(crate::app::Violation { prop: "C13", msg: format!("conn {ei}/{ch}: {} DATAGRAMs ({} bytes) still queued 120 s after the workload ended, current MTU {} | path MTU profile {:?} | {}", q.0, q.1, c.c.current_mtu(), h.net.mtu_schedule, h.summary()) });
+                    }
+                }
+            }
+        }
+    }
     // fallback + keeps delivering: under the C02 rule the workload must complete
     if !any_lost(&ran.w) {
         match ran.end {
